@@ -117,6 +117,14 @@ func scopesC06(thorough bool) []Scope {
 		{Name: "L-half-2", GS: synthGS(0, 2, [2]int64{7, 7}), Spec: lat.Spec{Points: lat.Window(2, 2, 2), MaxK: k(4, 5), Valid: true}, IDSets: one, Cfgs: cfgs},
 		{Name: "L-holes-2", GS: synthGS(0, 2, [2]int64{7, 7}), Spec: lat.Spec{Points: lat.Window(2, 2, 2), MaxK: k(3, 4), Valid: true, MaxHoles: 1, HoleMaxK: 3}, IDSets: one, Cfgs: cfgs},
 	}
+	// several ids requested together AND several rings: what an earlier ring did to the per-level bookkeeping (a level
+	// dropped because the shell collapsed there) meets the later rings
+	multi := [][]int{{0, 3}, {3, 0, 1}, {0, 1, 2, 3}}
+	scs = append(scs,
+		Scope{Name: "L-multi4-holes", GS: synthGS(3, 2, [2]int64{60, 60}), Spec: lat.Spec{Points: scale(lat.Window(2, 2, 2), 4), MaxK: 4, Valid: true, MaxHoles: 1, HoleMaxK: 3}, IDSets: multi, Cfgs: cfgs},
+		Scope{Name: "C-walk-rings-multi", GS: synthGS(2, 2, [2]int64{31, 31}), Spec: lat.Spec{Points: lat.Centres(2, 2), MinK: 1, MaxK: k(4, 5), Repeats: true, MaxHoles: k(1, 2), HoleMinK: 1, HoleMaxK: 3}, IDSets: [][]int{{0, 2}, {2, 1, 0}}, Cfgs: cfgs},
+		Scope{Name: "C-any-rings-multi", GS: synthGS(2, 2, [2]int64{28, 28}), Spec: lat.Spec{Points: scale(lat.Window(1, 1, 2), 2), MinK: 1, MaxK: k(3, 4), Repeats: true, MaxHoles: 1, HoleMinK: 1, HoleMaxK: 3}, IDSets: [][]int{{0, 2}, {0, 1, 2}}, Cfgs: cfgs},
+	)
 	scs = append(scs, kmpScope(thorough), shellWalkScope(k(8, 10)), holeWalkOnShellScope(k(8, 10)))
 	for _, f := range familyScopes(thorough) {
 		scs = append(scs, f)
